@@ -1,29 +1,44 @@
 /-
 Model/Loop — the concurrent tree walk of `filesystem/fsloop` (property C08).  Core Lean only.
 
-Two transition systems, mirroring `/repo/filesystem/fsloop/{loop,producer,consumer}.go` and
+One transition system, mirroring `/repo/filesystem/fsloop/{loop,producer,consumer}.go` and
 `/repo/workers/jobsync/{pool,lifecycle}.go`:
 
-1. **Producers** (`walkRoot`): the traversal of an arbitrary tree.  Every atomic action of
-   `Producer.Loop` / `processList` / `processDir` is a `PAct` (a `ReadDir`, a filter evaluation, a
-   `pool.Add(1)`, a channel send).  Whether an accepted directory is listed by a *fresh* producer
-   (`pool.Add(1) = 1`, `go newProducer.Loop()`) or *inline* by the current one (`pool.Add(1) = 0`)
-   is decided by an arbitrary oracle.  The result is one action sequence per producer goroutine; a
-   run of the producers is any interleaving of these sequences (`Interleave`).
+1. **Producer programs** (`rootProg`): the traversal of an arbitrary tree as the *program text* of a
+   producer goroutine.  Every atomic action of `Producer.Loop` / `processList` / `processDir` is a
+   `PAct`: a `ReadDir`, a filter evaluation, a `pool.Add(1)` that returned 0 (`add`: the directory
+   is listed inline), a `pool.Add(1)` that returned 1 followed by `go newProducer.Loop()` (`spawn`,
+   which carries the program of the new goroutine), a channel send, and the test
+   `if producer.lifecycle.IsKilled() { return true }` (`chk`) exactly where `processList` has it:
+   at the end of a loop iteration that sent a file, and at the end of an iteration that handled a
+   directory when no `DirFilter` is configured (with a `DirFilter` the directory branch ends in
+   `continue`; rejected or unselected files `continue` as well).  `chk n` and a failing inline
+   listing carry the number `n` of actions the early `return true` skips: the rest of the current
+   `processList` invocation (the result of a nested inline `processList` is dropped by
+   `processDir`, so the caller goes on).  Whether an accepted directory is listed by a fresh
+   producer or inline is decided by an arbitrary oracle (that is `pool.Add(1)` returning 1 or 0).
 
-2. **Queues + n consumers + closer** (`sys`): state = the producers' remaining actions in the order
-   in which they will complete (`pending`; "for all interleavings" = "for all such lists"), the two
-   bounded channels, the lifecycle step / kill flag / error list, the program counter of every
-   consumer goroutine, of the completion goroutine ("closer"), the consumer pool's wait-group counter
-   and the list of finished callbacks.  One transition per atomic action of `Consumer.Loop` (kill
-   test, step read, `len(dirChan)`, `len(fileChan)`, non-blocking receive, callback return, error
+2. **The system** (`sys`): state = every producer goroutine with the rest of its program (`run`),
+   or between a failed `ReadDir` and its `lifecycle.Error(err)` call (`rep`), or finished (`gone`);
+   the producer pool's wait-group counter; the two bounded channels; the lifecycle (step, context
+   `alive / canceled / deadline`, error list); the program counter of every consumer goroutine and
+   of the completion goroutine ("closer"); the consumer pool's wait-group counter; the finished
+   callbacks.  One transition per atomic action of `Consumer.Loop` (kill test at the top of the
+   loop, step read, `len(dirChan)`, `len(fileChan)`, non-blocking receive, callback return, error
    report, `pool.Done`), of the closer (`producerPool.Wait` returned, `NextStep(StepClose)`,
-   `close(dirChan)`, `close(fileChan)`) and of the producers (head of `pending`; a send is disabled
-   while its channel is full: sends block).
+   `close(dirChan)`, `close(fileChan)`), of a producer (head of its program; a send is disabled
+   while its channel is full: sends block), and three **environment acts** that may happen at any
+   moment: `kill` (scope `KillEvent` → `Loop.KillSlot` → `lifecycle.Kill()`), `errEvent` (scope
+   `ErrorEvent` → the same slot) and `timeout` (the lifecycle's deadline passes).
+   `lifecycle.Error(err)` (strict mode) appends to the error list and then cancels the context, as
+   one action under the lifecycle mutex.  A callback that is running when the lifecycle is killed
+   runs on (`PC.inCb` has no kill test); its result is handled afterwards.  `Loop.Wait` is
+   `consumerPool.Wait()`: enabled when the consumer pool's counter is 0.  `Loop.Errors()` is the
+   error list followed by the context's error (`errorsOf`).
 
    `Params.fixedOrder = true` is the order of the two reads in the repaired consumer (step first,
    emptiness second); `false` is the order of the tree tagged `pinned-base` (emptiness first, step
-   second), kept as a second system to exhibit the lost item (`Goat.C08.lost_item_reachable`).
+   second), kept to exhibit the lost item (`Goat.C08.lost_item_reachable`).
 -/
 import Goat.Base.LTS
 
@@ -34,7 +49,7 @@ abbrev Path := String
 /-- a callback argument: `(true, p)` = `OnDir(fs, p)`, `(false, p)` = `OnFile(fs, p)` -/
 abbrev Item := Bool × Path
 
-/-! ## 1. Producers -/
+/-! ## 1. Producer programs -/
 
 mutual
 /-- a node of the walked tree; `dir listable kids`: `ReadDir` of the directory succeeds (and returns
@@ -67,89 +82,100 @@ def WalkCfg.accD (c : WalkCfg) (p : Path) : Bool :=
 /-- atomic actions of a producer goroutine -/
 inductive PAct where
   /-- `ReadDir(p)` (`slash`: the path handed to `ReadDir` is `p ++ "/"`, which is what a freshly
-  started producer does) returned a listing (`ok`) or an error -/
-  | list (p : Path) (slash : Bool) (ok : Bool)
+  started producer does) returned a listing (`ok`) or an error; after an error the producer calls
+  `lifecycle.Error(err)` and returns `true` from `processDir`, which makes the enclosing
+  `processList` return: `skip` = the number of its actions that are not executed -/
+  | list (p : Path) (slash : Bool) (ok : Bool) (skip : Nat)
   | filtD (p : Path) (acc : Bool)
   | filtF (p : Path) (acc : Bool)
-  /-- `pool.Add(1)` for directory `p` returned 1 (`got`) or 0 -/
-  | add (p : Path) (got : Bool)
+  /-- `pool.Add(1)` for directory `p` returned 0: listed inline -/
+  | add (p : Path)
+  /-- `pool.Add(1)` for directory `p` returned 1, `go newProducer.Loop()`; `body` is the program of
+  the new producer goroutine -/
+  | spawn (p : Path) (body : List PAct)
   | send (isDir : Bool) (p : Path)
-deriving DecidableEq, Repr
-
-/-- what a (sub)walk does: the actions of the producer executing it and the action sequences of
-the producers it started (transitively) -/
-structure Out where
-  own : List PAct
-  spawned : List (List PAct)
-
-def Out.append (a b : Out) : Out := ⟨a.own ++ b.own, a.spawned ++ b.spawned⟩
+  /-- `if producer.lifecycle.IsKilled() { return true }`: when killed, the next `skip` actions (the
+  rest of this `processList` invocation) are not executed -/
+  | chk (skip : Nat)
 
 def skipName (name : String) : Bool := name == "." || name == ".."
 
 mutual
 /-- one iteration of the `for _, node := range readDir` loop of `processList` on the node `n`
-whose path is `p = basePath + node.Name()` -/
-def walkNode (c : WalkCfg) (oracle : Path → Bool) (p : Path) : Node → Out
+whose path is `p = basePath + node.Name()`; `after` = the number of actions of the remaining
+iterations of this `processList` invocation -/
+def walkNode (c : WalkCfg) (oracle : Path → Bool) (p : Path) (after : Nat) : Node → List PAct
   | .file =>
     if c.onFile then
       match c.fileFilter with
-      | none => ⟨[.send false p], []⟩
-      | some f => ⟨.filtF p (f p) :: (if f p then [.send false p] else []), []⟩
-    else ⟨[], []⟩
+      | none => [.send false p, .chk after]
+      | some f => .filtF p (f p) :: (if f p then [.send false p, .chk after] else [])
+    else []
   | .dir l k =>
     let pre : List PAct := match c.dirFilter with
       | none => []
       | some f => [.filtD p (f p)]
     if c.accD p then
       let snd : List PAct := if c.onDir then [.send true p] else []
+      -- with a `DirFilter` the branch ends in `continue`; without one it falls through to the kill test
+      let post : List PAct := match c.dirFilter with
+        | none => [.chk after]
+        | some _ => []
       -- processDir
       let sub := walkKids c oracle (p ++ "/") k
       if oracle p then
         -- `go newProducer.Loop()` with path `p + "/"`
-        ⟨pre ++ snd ++ [.add p true],
-          (.list p true l :: (if l then sub.own else [])) :: (if l then sub.spawned else [])⟩
+        pre ++ snd ++ [.spawn p (.list p true l 0 :: (if l then sub else []))] ++ post
       else
-        -- inline: `ReadDir(p)`, `processList(p + "/", …)`
-        ⟨pre ++ snd ++ [.add p false] ++ .list p false l :: (if l then sub.own else []),
-          if l then sub.spawned else []⟩
-    else ⟨pre, []⟩
+        -- inline: `ReadDir(p)`, `processList(p + "/", …)` (result dropped); a failing `ReadDir` makes
+        -- `processDir` return true, and the enclosing `processList` returns
+        pre ++ snd ++ [.add p, .list p false l (post.length + after)] ++ (if l then sub else []) ++ post
+    else pre
 /-- `processList(base, kids)` -/
-def walkKids (c : WalkCfg) (oracle : Path → Bool) (base : Path) : Kids → Out
-  | .nil => ⟨[], []⟩
+def walkKids (c : WalkCfg) (oracle : Path → Bool) (base : Path) : Kids → List PAct
+  | .nil => []
   | .cons name n rest =>
-    if skipName name then walkKids c oracle base rest
-    else (walkNode c oracle (base ++ name) n).append (walkKids c oracle base rest)
+    let r := walkKids c oracle base rest
+    if skipName name then r else walkNode c oracle (base ++ name) r.length n ++ r
 end
 
-/-- the first producer: `Producer.Loop` with `path = root` on a root directory whose listing
-succeeds (`l`) with children `k`, or fails -/
-def walkRoot (c : WalkCfg) (oracle : Path → Bool) (root : Path) (l : Bool) (k : Kids) : Out :=
-  let sub := walkKids c oracle root k
-  ⟨.list root false l :: (if l then sub.own else []), if l then sub.spawned else []⟩
+/-- the program of the first producer: `Producer.Loop` with `path = root` on a root directory whose
+listing succeeds (`l`) with children `k`, or fails -/
+def rootProg (c : WalkCfg) (oracle : Path → Bool) (root : Path) (l : Bool) (k : Kids) : List PAct :=
+  .list root false l 0 :: (if l then walkKids c oracle root k else [])
 
-/-- the action sequences of all producer goroutines of a run -/
-def producerSeqs (c : WalkCfg) (oracle : Path → Bool) (root : Path) (l : Bool) (k : Kids) : List (List PAct) :=
-  let o := walkRoot c oracle root l k
-  o.own :: o.spawned
-
-/-- `l` is an interleaving of the sequences `ls` (each sequence keeps its order) -/
-inductive Interleave {α : Type} : List (List α) → List α → Prop where
-  | done : Interleave [] []
-  | dropNil {ls : List (List α)} {l : List α} : Interleave ls l → Interleave ([] :: ls) l
-  | take {pre : List (List α)} {x : α} {xs : List α} {post : List (List α)} {l : List α} :
-      Interleave (pre ++ xs :: post) l → Interleave (pre ++ (x :: xs) :: post) (x :: l)
-
-/-- the items sent to the channels by a sequence of producer actions -/
-def sends : List PAct → List Item
+mutual
+/-- the items a program sends to the channels, including the programs of the producers it starts -/
+def PAct.sends : PAct → List Item
+  | .send d p => [(d, p)]
+  | .spawn _ body => sendsL body
+  | _ => []
+def sendsL : List PAct → List Item
   | [] => []
-  | .send d p :: r => (d, p) :: sends r
-  | _ :: r => sends r
+  | a :: r => a.sends ++ sendsL r
+end
 
-/-- the `ReadDir` calls of a sequence of producer actions: directory and outcome -/
-def lists : List PAct → List (Path × Bool)
+mutual
+/-- the `ReadDir` calls of a program (directory, outcome), including started producers -/
+def PAct.lists : PAct → List (Path × Bool)
+  | .list p _ ok _ => [(p, ok)]
+  | .spawn _ body => listsL body
+  | _ => []
+def listsL : List PAct → List (Path × Bool)
   | [] => []
-  | .list p _ ok :: r => (p, ok) :: lists r
-  | _ :: r => lists r
+  | a :: r => a.lists ++ listsL r
+end
+
+mutual
+/-- number of actions of a program, including started producers (each counted with its `pool.Done`) -/
+def PAct.size : PAct → Nat
+  | .spawn _ body => 2 + sizeL body
+  | .list _ _ _ _ => 2
+  | _ => 1
+def sizeL : List PAct → Nat
+  | [] => 0
+  | a :: r => a.size + sizeL r
+end
 
 /-! ### The specification of the walk: which nodes are *selected*, which directories are listed.
 No oracle, no actions — the plain recursive reading of "every file and every directory that passes
@@ -200,7 +226,7 @@ def consumerCount (configured maxJob : Nat) : Nat :=
   let lim := if configured = 0 ∨ configured > maxJob then maxJob else configured
   poolAdd lim 0 maxJob
 
-/-! ## 2. Queues, consumers, closer -/
+/-! ## 2. Producers, queues, consumers, closer, lifecycle, environment -/
 
 /-- program counter of a consumer goroutine (`Consumer.Loop`) -/
 inductive PC where
@@ -221,7 +247,7 @@ inductive PC where
   | workF
   /-- about to execute the non-blocking receive on `fileChan` -/
   | selF
-  /-- inside `OnDir` (`isDir`) / `OnFile` on `p` -/
+  /-- inside `OnDir` (`isDir`) / `OnFile` on `p`; no kill test: a running callback runs on -/
   | inCb (isDir : Bool) (p : Path)
   /-- the callback returned an error, about to call `lifecycle.Error(err)` -/
   | rep (isDir : Bool) (p : Path)
@@ -240,23 +266,67 @@ inductive CPC where
   | fin
 deriving DecidableEq, Repr
 
-/-- an entry of `lifecycle.errors` -/
+/-- an entry of what `Loop.Errors()` returns: the entries of `lifecycle.errors`, and the context's
+error that `Errors()` appends (`context.Canceled` / `context.DeadlineExceeded`) -/
 inductive Err where
   | cb (isDir : Bool) (p : Path)
   | listing (p : Path)
+  | canceled
+  | deadline
 deriving DecidableEq, Repr
 
+/-- the lifecycle's context -/
+inductive Ctx where
+  | alive
+  /-- `cancel()` was called: `lifecycle.Kill()` (scope Kill / Error event) or `lifecycle.Error` -/
+  | canceled
+  /-- the deadline (`workers.DefaultTimeout` after `Run`) passed first -/
+  | deadline
+deriving DecidableEq, Repr
+
+/-- `lifecycle.IsKilled()` -/
+def Ctx.dead : Ctx → Bool
+  | .alive => false
+  | _ => true
+
+/-- `cancel()`: the first cause wins -/
+def Ctx.kill : Ctx → Ctx
+  | .alive => .canceled
+  | c => c
+
+/-- the deadline passes -/
+def Ctx.expire : Ctx → Ctx
+  | .alive => .deadline
+  | c => c
+
+/-- `ctx.Err()` as `Errors()` appends it -/
+def Ctx.err : Ctx → List Err
+  | .alive => []
+  | .canceled => [.canceled]
+  | .deadline => [.deadline]
+
+/-- a producer goroutine -/
+inductive Prod where
+  /-- the rest of its program; `run []`: returned from `Loop`, the deferred `pool.Done()` is next -/
+  | run (acts : List PAct)
+  /-- `ReadDir(p)` failed; the next action is `lifecycle.Error(err)`, then `return` (skipping `skip`
+  actions of `rest`) -/
+  | rep (p : Path) (skip : Nat) (rest : List PAct)
+  /-- `pool.Done()` executed -/
+  | gone
+
 structure St where
-  /-- the producers' remaining actions, in the order in which they will complete -/
-  pending : List PAct
+  prods : List Prod
+  /-- counter of the producer pool's wait group -/
+  ppool : Nat
   qd : List Path
   qf : List Path
   dClosed : Bool
   fClosed : Bool
   /-- `lifecycle.step = StepClose` -/
   closed : Bool
-  /-- the lifecycle's context is cancelled (only `lifecycle.Error` does that in this model) -/
-  killed : Bool
+  ctx : Ctx
+  /-- `lifecycle.errors` -/
   errors : List Err
   closer : CPC
   cons : List PC
@@ -264,9 +334,16 @@ structure St where
   poolCtr : Nat
   /-- callbacks that have returned, most recent first -/
   done : List Item
-  /-- ghost: the actions that killed producers never executed -/
+  /-- ghost: the actions that producers skipped by returning early -/
   dropped : List PAct
-deriving Repr
+  /-- ghost: the directories whose `ReadDir` returned an error, most recent first -/
+  lfailed : List Path
+
+/-- `lifecycle.IsKilled()` -/
+def St.killed (s : St) : Bool := s.ctx.dead
+
+/-- `Loop.Errors()` -/
+def errorsOf (s : St) : List Err := s.errors ++ s.ctx.err
 
 structure Params where
   capD : Nat
@@ -306,7 +383,8 @@ def consAct (P : Params) (s : St) : PC → PC × St
     if P.failCb d x then
       (.rep d x, { s with done := (d, x) :: s.done })
     else (afterCb d, { s with done := (d, x) :: s.done })
-  | .rep d x => (afterCb d, { s with errors := s.errors ++ [.cb d x], killed := true })
+  -- `lifecycle.Error(err)`: append, then kill (strict mode), whether or not already killed
+  | .rep d x => (afterCb d, { s with errors := s.errors ++ [.cb d x], ctx := s.ctx.kill })
   | .exiting => (.exited, { s with poolCtr := s.poolCtr - 1 })
   | .exited => (.exited, s)
 
@@ -319,69 +397,86 @@ def consStep (P : Params) (s : St) (i : Nat) : Option St :=
       let r := consAct P s pc
       some { r.2 with cons := s.cons.set i r.1 }
 
-/-- the producers execute the action `a`, the head of `pending` (`rest` = its tail) -/
-def prodAct (P : Params) (s : St) (rest : List PAct) : PAct → Option St
+/-- producer `j` executes the action `a`, the head of its program (`rest` = its tail) -/
+def prodAct (P : Params) (s : St) (j : Nat) (rest : List PAct) : PAct → Option St
   | .send true p =>
     -- `dirChan <- p` blocks while the channel is full (and would panic on a closed channel)
     if s.qd.length < P.capD ∧ s.dClosed = false then
-      some { s with pending := rest, qd := s.qd ++ [p] }
+      some { s with prods := s.prods.set j (.run rest), qd := s.qd ++ [p] }
     else none
   | .send false p =>
     if s.qf.length < P.capF ∧ s.fClosed = false then
-      some { s with pending := rest, qf := s.qf ++ [p] }
+      some { s with prods := s.prods.set j (.run rest), qf := s.qf ++ [p] }
     else none
-  | .list p _ false =>
-    -- `producer.lifecycle.Error(err)`: append and kill under the lifecycle mutex
-    some { s with pending := rest, errors := s.errors ++ [.listing p], killed := true }
-  | .list _ _ true => some { s with pending := rest }
-  | .filtD _ _ => some { s with pending := rest }
-  | .filtF _ _ => some { s with pending := rest }
-  | .add _ _ => some { s with pending := rest }
+  | .list p _ false k =>
+    some { s with prods := s.prods.set j (.rep p k rest), lfailed := p :: s.lfailed }
+  | .list _ _ true _ => some { s with prods := s.prods.set j (.run rest) }
+  | .filtD _ _ => some { s with prods := s.prods.set j (.run rest) }
+  | .filtF _ _ => some { s with prods := s.prods.set j (.run rest) }
+  | .add _ => some { s with prods := s.prods.set j (.run rest) }
+  | .spawn _ body =>
+    -- `pool.Add(1)` (granted) and `go newProducer.Loop()`
+    some { s with prods := s.prods.set j (.run rest) ++ [.run body], ppool := s.ppool + 1 }
+  | .chk k =>
+    if s.killed then
+      some { s with prods := s.prods.set j (.run (rest.drop k)), dropped := rest.take k ++ s.dropped }
+    else some { s with prods := s.prods.set j (.run rest) }
 
-def prodStep (P : Params) (s : St) : Option St :=
-  match s.pending with
-  | [] => none
-  | a :: rest => prodAct P s rest a
-
-/-- a killed lifecycle makes producers return early: the head action is never executed -/
-def abandonStep (s : St) : Option St :=
-  if s.killed then
-    match s.pending with
-    | [] => none
-    | a :: rest => some { s with pending := rest, dropped := a :: s.dropped }
-  else none
+def prodStep (P : Params) (s : St) (j : Nat) : Option St :=
+  match s.prods[j]? with
+  | none => none
+  | some .gone => none
+  | some (.rep p k rest) =>
+    -- `producer.lifecycle.Error(err)`: append and kill under the lifecycle mutex; then return
+    some { s with prods := s.prods.set j (.run (rest.drop k)), errors := s.errors ++ [.listing p],
+                  ctx := s.ctx.kill, dropped := rest.take k ++ s.dropped }
+  | some (.run []) => some { s with prods := s.prods.set j .gone, ppool := s.ppool - 1 }
+  | some (.run (a :: rest)) => prodAct P s j rest a
 
 def closerStep (s : St) : Option St :=
   match s.closer with
-  | .waiting => if s.pending.isEmpty then some { s with closer := .waited } else none
+  | .waiting => if s.ppool = 0 then some { s with closer := .waited } else none
   | .waited => some { s with closed := true, closer := .announced }
   | .announced => some { s with dClosed := true, closer := .closedD }
   | .closedD => some { s with fClosed := true, closer := .fin }
   | .fin => none
 
-/-- scheduling choices -/
+/-- scheduling choices: the goroutines of the loop, and the environment -/
 inductive Label where
-  | prod
-  | abandon
+  | prod (j : Nat)
   | closer
   | cons (i : Nat)
+  /-- scope `KillEvent` → `Loop.KillSlot` → `lifecycle.Kill()` -/
+  | kill
+  /-- scope `ErrorEvent` → `Loop.KillSlot` → `lifecycle.Kill()` -/
+  | errEvent
+  /-- the lifecycle's deadline passes -/
+  | timeout
 deriving DecidableEq, Repr
 
+/-- the label is an action of a goroutine of the loop (not of the environment) -/
+def Label.isProg : Label → Bool
+  | .prod _ => true
+  | .closer => true
+  | .cons _ => true
+  | _ => false
+
 def step (P : Params) (s : St) : Label → Option St
-  | .prod => prodStep P s
-  | .abandon => abandonStep s
+  | .prod j => prodStep P s j
   | .closer => closerStep s
   | .cons i => consStep P s i
+  | .kill => some { s with ctx := s.ctx.kill }
+  | .errEvent => some { s with ctx := s.ctx.kill }
+  | .timeout => some { s with ctx := s.ctx.expire }
 
-def init (acts : List PAct) (n : Nat) : St :=
-  { pending := acts, qd := [], qf := [], dClosed := false, fClosed := false, closed := false,
-    killed := false, errors := [], closer := .waiting, cons := List.replicate n .top, poolCtr := n,
-    done := [], dropped := [] }
+def init (prog : List PAct) (n : Nat) : St :=
+  { prods := [.run prog], ppool := 1, qd := [], qf := [], dClosed := false, fClosed := false,
+    closed := false, ctx := .alive, errors := [], closer := .waiting, cons := List.replicate n .top,
+    poolCtr := n, done := [], dropped := [], lfailed := [] }
 
-/-- the transition system of a loop with `n` consumer goroutines whose producers complete the
-actions `acts` in this order -/
-def sys (P : Params) (acts : List PAct) (n : Nat) : Sys St Label :=
-  { init := init acts n, step := step P }
+/-- the transition system of a loop with `n` consumer goroutines whose first producer runs `prog` -/
+def sys (P : Params) (prog : List PAct) (n : Nat) : Sys St Label :=
+  { init := init prog n, step := step P }
 
 /-- `consumerPool.Wait()` can return -/
 def waitEnabled (s : St) : Prop := s.poolCtr = 0
@@ -399,6 +494,18 @@ def reporting : List PC → List Err
   | [] => []
   | .rep d x :: r => .cb d x :: reporting r
   | _ :: r => reporting r
+
+/-- listing failures whose `lifecycle.Error` call is the reporting producer's next action -/
+def reportingP : List Prod → List Path
+  | [] => []
+  | .rep p _ _ :: r => p :: reportingP r
+  | _ :: r => reportingP r
+
+/-- the producer goroutines that have not executed `pool.Done()` -/
+def liveProds : List Prod → Nat
+  | [] => 0
+  | .gone :: r => liveProds r
+  | _ :: r => liveProds r + 1
 
 def qItems (s : St) : List Item := s.qd.map (fun p => (true, p)) ++ s.qf.map (fun p => (false, p))
 
